@@ -1,30 +1,41 @@
 #!/usr/bin/env python3
-"""Development aid: re-run the kept seeded changes (/verif/seeded/<id>/patch.diff) against the current checks.
-usage: reseed.py [ids...]   applies each patch to /repo, runs bin/check <id> (quick), reverts, updates meta.json"""
-import json, os, subprocess, sys, time
-ids = sys.argv[1:] or sorted(os.listdir("/verif/seeded"))
+"""Development aid: re-run the kept seeded changes (/verif/seeded/<id>/patch.diff) against the current checks WITHOUT touching
+/repo: a scratch copy of /repo's working tree gets the patch and the check is pointed at it through VERIF_REPO.
+usage: reseed.py [ids...]            - each seeded patch against the check of the same id
+       reseed.py --patch FILE ids... - an ad-hoc patch (git diff format) against the listed checks (a hand-made mutant)"""
+import json, os, shutil, subprocess, sys, time
+args = sys.argv[1:]
+patch = None
+if args and args[0] == "--patch":
+    patch, args = os.path.abspath(args[1]), args[2:]
+ids = args or sorted(os.listdir("/verif/seeded"))
 env = dict(os.environ, GOFLAGS="-mod=mod", GOPROXY="off", GOSUMDB="off", GOTOOLCHAIN="local")
-def sh(cmd, timeout=1700):
-    p = subprocess.run(cmd, shell=True, cwd="/verif", env=env, stdout=subprocess.PIPE, stderr=subprocess.STDOUT, text=True, errors="replace", timeout=timeout)
+MUT = os.path.expanduser("~/.cache/servitor-verif/mutrepo-%d" % os.getpid())
+def sh(cmd, timeout=1900, extra=None):
+    e = dict(env)
+    if extra:
+        e.update(extra)
+    p = subprocess.run(cmd, shell=True, cwd="/verif", env=e, stdout=subprocess.PIPE, stderr=subprocess.STDOUT, text=True, errors="replace", timeout=timeout)
     return p.returncode, p.stdout
-for pid in ids:
-    d = "/verif/seeded/%s" % pid
-    rc, out = sh("git -C /repo status --porcelain")
-    if out.strip():
-        sys.exit("/repo is not clean: " + out)
-    rc, out = sh("git -C /repo apply %s/patch.diff" % d)
-    if rc != 0:
-        print(pid, "patch does not apply:", out[:300])
-        continue
-    try:
+try:
+    for pid in ids:
+        shutil.rmtree(MUT, ignore_errors=True)
+        os.makedirs(MUT)
+        sh("rsync -a --exclude .git /repo/ %s/" % MUT)
+        pf = patch or "/verif/seeded/%s/patch.diff" % pid
+        rc, out = sh("cd %s && git init -q . && git apply %s" % (MUT, pf))
+        if rc != 0:
+            print(pid, "patch does not apply:", out[:300])
+            continue
         t0 = time.time()
-        rc, out = sh("timeout 1600 bin/check %s --tier quick" % pid)
+        rc, out = sh("timeout 1800 bin/check %s --tier quick" % pid, extra={"VERIF_REPO": MUT})
         lines = [l for l in out.split("\n") if l.startswith("VIOLATION") or l.startswith("KNOWN") or l.startswith(pid + " ")]
-        print(pid, "CAUGHT" if rc != 0 else "MISSED", lines)
-        mp = os.path.join(d, "meta.json")
-        m = json.load(open(mp)) if os.path.exists(mp) else {"property": pid}
-        m.setdefault("checks", {})[pid] = {"exit": rc, "lines": lines, "wall_s": round(time.time() - t0), "rerun": time.strftime("%Y-%m-%d")}
-        m["caught_by"] = [c for c, r in m["checks"].items() if r["exit"] != 0]
-        json.dump(m, open(mp, "w"), indent=1)
-    finally:
-        sh("git -C /repo checkout -- .")
+        print(pid, "CAUGHT" if rc != 0 else "MISSED", [l[:200] for l in lines])
+        if not patch:
+            mp = "/verif/seeded/%s/meta.json" % pid
+            m = json.load(open(mp)) if os.path.exists(mp) else {"property": pid}
+            m.setdefault("checks", {})[pid] = {"exit": rc, "lines": lines, "wall_s": round(time.time() - t0), "rerun": time.strftime("%Y-%m-%d")}
+            m["caught_by"] = [c for c, r in m["checks"].items() if r["exit"] != 0]
+            json.dump(m, open(mp, "w"), indent=1)
+finally:
+    shutil.rmtree(MUT, ignore_errors=True)
